@@ -630,6 +630,28 @@ class Sym:
     def log(self):
         return sym_log(self)
 
+    # derived forms (so that a rewritten formula in the code under test still executes symbolically)
+    def expm1(self):
+        return sym_exp(self) - 1
+
+    def log1p(self):
+        return sym_log(self + 1)
+
+    def sinh(self):
+        return (sym_exp(self) - sym_exp(-self)) / 2
+
+    def cosh(self):
+        return (sym_exp(self) + sym_exp(-self)) / 2
+
+    def exp2(self):
+        return sym_exp(self * sym_log(SymR(Fraction(2))))
+
+    def square(self):
+        return self * self
+
+    def reciprocal(self):
+        return 1 / self
+
     def floor(self):
         if self.is_concrete and self.is_real:
             return SymR(Fraction(math.floor(self.re)))
